@@ -67,4 +67,9 @@ def deductive(tier="quick", seed=0):
     ]
     d.notes.append("frame facts proved: inverse_circuit works IN PLACE on its argument (the argument object is returned, overwritten); "
                    "run_circuit(reverse=True) reverses the caller's list in place (bounded/C11.findings.md O1, O2)")
+    # group preservation step by step (inverse_circuit, canonical_form), first Hadamard block (last Z candidate), per-step contracts of
+    # the later blocks, exhaustive n <= 3 with the circuit replayed gate by gate: contracts/stab_group.py.  Clause (b) stays unproved.
+    from contracts import stab_group
+
+    d = stab_group.extend_deductive(d, C)
     return d
